@@ -263,7 +263,10 @@ class Link(object):
     ``byte_mitm(direction, offset, data)`` (optional) transforms raw chunks.
     """
 
-    def __init__(self, mitm=None, byte_mitm=None):
+    def __init__(self, mitm=None, byte_mitm=None, batch_mitm=None):
+        # batch_mitm(direction, [records available in this pump]) -> list of
+        # byte strings: lets a re-framer merge records of one flight
+        self.batch_mitm = batch_mitm
         self.out = {"c": Pipe(), "s": Pipe()}    # written by that side
         self.inp = {"c": Pipe(), "s": Pipe()}    # read by that side
         self.mitm = mitm
@@ -288,7 +291,7 @@ class Link(object):
             if o.q:
                 data = o.take(len(o.q))
                 direction = src + "2" + dst
-                if self.mitm is None:
+                if self.mitm is None and self.batch_mitm is None:
                     if self.byte_mitm is not None:
                         data = self.byte_mitm(direction, self.consumed[src],
                                               data)
@@ -300,6 +303,14 @@ class Link(object):
                     p = self.pending[src]
                     p += data
                     recs, end = records(p)
+                    if self.batch_mitm is not None and recs:
+                        for r in recs:
+                            r["off"] += self.consumed[src]
+                        for chunk in self.batch_mitm(direction, recs):
+                            self.inp[dst].write(bytes(chunk))
+                        self.rec_index[src] += len(recs)
+                        moved = True
+                        recs = []
                     for r in recs:
                         r["off"] += self.consumed[src]
                         outl = self.mitm(direction, self.rec_index[src], r)
